@@ -11,15 +11,16 @@ from okdmr.dmrlib.storage.repeater import Repeater
 
 EXPLANATION = ("C20: the pre-state (presence of each of 3 addresses, dmr ids, dynamic attribute presence and values), the operation and its arguments are symbolic; "
                "after the step the representation invariant, identity stability, the growth rule and the frame condition on every other record are proved.")
-BOUNDS = {"quick": "one step from every valid state over a pool of 3 addresses (two sharing an IP), 2 dynamic keys, 8-bit dmr ids / values; histories of depth 2 from the empty storage",
-          "thorough": "histories of depth 3"}
-OUTSIDE = "patches that rename identity fields (id, address_in); pools larger than 3 addresses / 2 keys; histories beyond the stated depth (covered by the inductive step from an arbitrary valid state)"
+BOUNDS = {"quick": "one step (19 operation kinds) from every valid state over a pool of 3 addresses (two sharing an IP), 2 dynamic keys, 8-bit dmr ids / values; histories of depth 3 over 6 operation kinds and two addresses sharing an IP, from the empty storage",
+          "thorough": "histories of depth 4"}
+OUTSIDE = "patches that rename the id; pools larger than 3 addresses / 2 keys; histories beyond the stated depth (covered by the inductive step from an arbitrary valid state)"
 ASSUMPTIONS = ["representation invariant of a valid state: dict key == record id, ids pairwise distinct, at most one record per address_in",
                "'processing' = the storage / repeater methods of the property's list called with arguments from the pools; a raised exception is a failure unless documented (match_uuid of an unknown id raises SystemError)"]
 
 ADDRS = [("10.0.0.1", 50000), ("10.0.0.2", 50000), ("10.0.0.1", 50001)]
 KEYS = ["k1", "k2"]
-OPS = ["match_incoming", "match_incoming_create", "match_incoming_patch_field", "match_incoming_patch_attr", "match_incoming_create_patch", "save_patch", "save_nopatch", "match_attr_dmr",
+HISTORY_OPS = ["match_incoming", "match_incoming_create", "match_ip", "patch_field_none", "patch_address_in", "match_incoming_patch_attr"]
+OPS = ["patch_field_none", "patch_address_in", "match_incoming", "match_incoming_create", "match_incoming_patch_field", "match_incoming_patch_attr", "match_incoming_create_patch", "save_patch", "save_nopatch", "match_attr_dmr",
        "match_attr_callsign", "match_ip", "match_uuid", "attr_write", "attr_read", "delete_attr", "patch_field", "patch_attr", "patch_both"]
 
 
@@ -51,7 +52,8 @@ def unchanged(hx, before, st, except_rec, what, changed_fields=(), changed_attrs
         hx.prove(key in now, "%s: no record disappears" % what)
         mine = r is except_rec
         hx.prove(r.id == rid, "%s: record id is stable" % what)
-        hx.prove(r.address_in == ain, "%s: incoming address is stable" % what)
+        if not (mine and "address_in" in changed_fields):
+            hx.prove(r.address_in == ain, "%s: incoming address is stable" % what)
         if not (mine and "dmr_id" in changed_fields):
             hx.prove(r.dmr_id == dmr, "%s: dmr_id of %s record untouched" % (what, "the matched" if mine else "another"))
         if not (mine and "callsign" in changed_fields):
@@ -81,12 +83,15 @@ def build_state(hx):
     return st, recs
 
 
-def step(hx, st, n, tag):
+NEW_ADDR = ("10.0.0.9", 40000)
+
+
+def step(hx, st, n, tag, ops=None, small=False):
     """one symbolic operation; returns nothing, proves the per-step clauses"""
-    op = hx.pick("op%d" % n, OPS)
-    ai = hx.pick("addr%d" % n, [0, 1, 2])
+    op = hx.pick("op%d" % n, ops or OPS)
+    ai = hx.pick("addr%d" % n, [0, 2] if small else [0, 1, 2])
     addr = ADDRS[ai]
-    key = hx.pick("key%d" % n, KEYS)
+    key = KEYS[0] if small else hx.pick("key%d" % n, KEYS)
     val = hx.int(8, "val%d" % n) + 1
     before = snapshot(st)
     n_before = len(st)
@@ -152,7 +157,7 @@ def step(hx, st, n, tag):
         s_, got = call(st.match_ip_incoming, addr[0])
         if s_ == "ok":
             cands = [r for r in st.all() if r.address_in[0] == addr[0]]
-            hx.prove((got in cands) if cands else got is None, "%s: IP look-up returns a record with that IP or None" % what)
+            hx.prove((got is cands[0]) if cands else got is None, "%s: IP look-up returns the (first stored, hence stable) record with that IP, or None" % what)
             hx.prove(len(st) == n_before, "%s: look-up never grows the storage" % what)
             unchanged(hx, before, st, None, what)
     elif op == "match_uuid":
@@ -162,6 +167,24 @@ def step(hx, st, n, tag):
         if s_ == "ok":
             hx.prove(got is rec, "%s: id look-up returns the record" % what)
             unchanged(hx, before, st, None, what)
+    elif op == "patch_field_none":
+        if rec is None:
+            return
+        s_, got = call(rec.patch, {"callsign": None})
+        if s_ == "ok":
+            hx.prove(rec.callsign is None, "%s: a built-in field named in the patch takes the new value, None included" % what)
+            unchanged(hx, before, st, rec, what, changed_fields=["callsign"])
+    elif op == "patch_address_in":
+        if rec is None or any(r.address_in == NEW_ADDR for r in st.all()):
+            return
+        s_, got = call(st.save, rec, patch={"address_in": NEW_ADDR})
+        if s_ == "ok":
+            hx.prove(rec.address_in == NEW_ADDR, "%s: the incoming address named in the patch is changed" % what)
+            hx.prove(st.match_incoming(NEW_ADDR) is rec, "%s: the record is found under its new address" % what)
+            hx.prove(st.match_incoming(addr) is None, "%s: nothing is found under the old address any more" % what)
+            hx.prove(len(st) == n_before, "%s: moving a record does not change the size" % what)
+        invariant(hx, st, "after " + what)
+        return
     elif op in ("attr_write", "attr_read", "delete_attr", "patch_field", "patch_attr", "patch_both"):
         if rec is None:
             return
@@ -194,21 +217,22 @@ def step(hx, st, n, tag):
     invariant(hx, st, "after " + what)
 
 
-def h_step(hx):
+def h_step(hx, op):
     st, recs = build_state(hx)
     invariant(hx, st, "constructed pre-state")
-    step(hx, st, 0, "one step:")
+    step(hx, st, 0, "one step:", ops=[op])
     hx.cover("step")
 
 
 def h_history(hx, depth):
     st = RepeaterStorage()
     for n in range(depth):
-        step(hx, st, n, "history step %d:" % n)
+        step(hx, st, n, "history step %d:" % n, ops=HISTORY_OPS, small=True)
     hx.cover("history")
 
 
 def cases(tier, seed):
-    return [Case("one-step", "h_step", {}, covers=["step"], budget_s=900, opts=dict(max_paths=60000, max_violations=10), bounds="arbitrary valid state over 3 addresses x 17 operation kinds x argument pools"),
-            Case("history-%d" % (2 if tier == "quick" else 3), "h_history", dict(depth=2 if tier == "quick" else 3), covers=["history"], budget_s=1800,
+    return [Case("one-step-" + op, "h_step", dict(op=op), covers=["step"], budget_s=900, opts=dict(max_paths=60000, max_violations=10),
+                 bounds="arbitrary valid state over 3 addresses, operation %s, arguments from the pools" % op) for op in OPS] + [
+            Case("history-%d" % (3 if tier == "quick" else 4), "h_history", dict(depth=3 if tier == "quick" else 4), covers=["history"], budget_s=1800,
                  opts=dict(max_paths=200000, max_violations=10), bounds="all operation sequences of the stated depth from the empty storage")]
